@@ -72,7 +72,7 @@ theorem C11_F1a_node (A : Algebra) (env : Env) (hsym : EqSymm A) (hg : env.g.Nod
   f1a_node_refines A env hsym hg a ls tail hc hs
 
 /-- **C11 on F1a, single outgoing hop** — `MATCH (a:La)-[ev:T1|T2…]->(d:Ld)` as the first clause, followed by core
-    clauses without DISTINCT / SKIP / LIMIT (`bagClauses`), on graphs without parallel relationship copies
+    clauses without SKIP / LIMIT (`bagClauses`; DISTINCT is allowed: it respects permutations, `dedup_perm`), on graphs without parallel relationship copies
     (`NoParallel`, the trigger of C11-parallel-rel-reuse): the compiled plan (anchor scan + IndexSeek, label filters,
     MatchOut with destination labels and the hidden path column, WHERE equality conjuncts pushed down on all three
     aliases) and the reference return the same bag of rows.  Side conditions: distinct variable names, none of them
@@ -88,7 +88,7 @@ theorem C11_F1a_hop_out (A : Algebra) (env : Env) (hsym : EqSymm A) (hg : env.g.
   f1a_hop_out_agrees A env hsym hg hnp a d la dl rels ev tail hrels had hev hap hdp hep hin hc hs
 
 /-- **C11 on F1a, one hop in any direction** — `MATCH (a:La)-[ev:T…]->(d:Ld)`, `<-[…]-` or `-[…]-` (undirected, with
-    the self-loop rule) as the first clause, then core clauses without DISTINCT / SKIP / LIMIT, on graphs without
+    the self-loop rule) as the first clause, then core clauses without SKIP / LIMIT, on graphs without
     parallel copies: the same bag of rows.  For the incoming and the undirected hop the engine binds the
     destination before the relationship variable, so model and reference rows agree up to column order until the
     first projection (`HRelE`). -/
@@ -102,7 +102,7 @@ theorem C11_F1a_hop (A : Algebra) (env : Env) (hsym : EqSymm A) (hg : env.g.Node
       (Spec.denote A env (.match_ false [hopPatD dir a la ev rels d dl] :: tail)) :=
   f1a_hop_agrees A env hsym hg hnp dir a d la dl rels ev tail hrels had hev hap hdp hep hin hc hs
 
-/-- the reference's core clauses (no DISTINCT / SKIP / LIMIT: `bagClauses`) respect "same bag of rows once the hidden
+/-- the reference's core clauses (no SKIP / LIMIT: `bagClauses`) respect "same bag of rows once the hidden
     path column is erased" — the relation between the rows of a MATCH plan and the reference's rows; with
     `C11_core_induction` this reduces an F1a query to its MATCH step -/
 theorem C11_core_bag_congruence (A : Algebra) (env : Env) (pa : String) (q : Query) (b : Bool) (s s' : List String)
